@@ -229,6 +229,70 @@ def _case(top, alt, cmd, root=0):
         return rt.ok()
 
 
+TV_CMDS = ['list', 'list-trash-dirs', 'restore', 'empty-dry', 'rm-link-volume', 'empty', 'put-on-link-volume']
+TV_LINKS = ['absolute', 'relative']
+
+
+def _twovol(order, cmd, link):
+    """two volumes in ONE run: R has a valid sticky .Trash with a $uid directory; L's .Trash is a symbolic link that
+    resolves to R's.  The link must be rejected whatever was decided about the directory it resolves to."""
+    with rt.untraced():
+        R, L = ('/v', '/w') if order == 0 else ('/w', '/v')
+        rt.begin((R, L, TV_CMDS[cmd], TV_LINKS[link]))
+        nodes = [W.d('/h'), W.d(R + '/d'), W.d(L + '/d'), W.f(L + '/d/y', 'NEW', 0o644, 1000), W.d(R + '/.Trash', 0o1777)]
+        uid_dir = R + '/.Trash/1000'
+        nodes += K.trashed(uid_dir, 'sec', 'd/secret', '2019-01-01T00:00:00', 'file', 2000)
+        nodes.append(W.l(L + '/.Trash', (R + '/.Trash') if TV_LINKS[link] == 'absolute' else ('..' + R + '/.Trash'), 2100))
+        world = W.W(mounts=['/', '/v', '/w'], cwd='/', nodes=nodes)
+        e = scen.env()
+        c = TV_CMDS[cmd]
+        step = {
+            'list': C('list', [], e, cwd='/'), 'list-trash-dirs': C('list', ['--trash-dirs'], e, cwd='/'),
+            'restore': C('restore', ['/'], e, stdin=[''], cwd='/'),
+            'empty-dry': C('empty', ['--dry-run'], e, cwd='/'),
+            'rm-link-volume': C('rm', [L + '/d/*'], e, cwd='/'),
+            'empty': C('empty', [], e, cwd='/'),
+            'put-on-link-volume': C('put', [L + '/d/y'], e, cwd='/'),
+        }[c]
+        m, res = scen.run_model(world, [{'snap': '/'}, step, {'snap': '/'}])
+        before, r, after = res
+        label = 'two-volumes:link-on-%s-volume:%s-link:cmd=%s' % ('second' if order == 0 else 'first', TV_LINKS[link], c)
+        if r['exc']:
+            return rt.fail('C08:traceback:%s:%s' % (r['exc'].split(':')[0], label), r['exc'])
+        bad, good = L + '/d/secret', R + '/d/secret'
+        if c in ('list', 'restore', 'empty-dry'):
+            if bad in r['out'] or L + '/.Trash/1000' in r['out']:
+                return rt.fail('C08:insecure-dir-read:' + label, 'stdout mentions the entries behind the symlinked %s/.Trash: %r' % (L, r['out'][-300:]))
+            if c in ('list', 'restore') and good not in r['out']:
+                return rt.fail('C08:secure-dir-not-read:' + label, r['out'][-300:])
+        if c == 'list-trash-dirs':
+            lines = [ln.strip() for ln in K.lines(r['out'])]
+            if (L + '/.Trash/1000') in lines:
+                return rt.fail('C08:insecure-dir-listed-as-usable:' + label, r['out'])
+            if (R + '/.Trash/1000') not in lines:
+                return rt.fail('C08:secure-dir-not-read:' + label, r['out'])
+        if c == 'list' and L + '/.Trash/1000' not in r['err']:
+            return rt.fail('C08:no-skip-diagnostic:' + label, 'trash-list stderr: %r' % (r['err'],))
+        if c in ('rm-link-volume', 'list', 'list-trash-dirs', 'restore', 'empty-dry') and scen.sub(after, uid_dir) != scen.sub(before, uid_dir):
+            return rt.fail('C08:insecure-dir-modified:' + label, 'contents of %s changed through %s/.Trash: %r' % (uid_dir, L, scen.delta(scen.sub(before, uid_dir), scen.sub(after, uid_dir))))
+        if c == 'empty' and scen.sub(after, uid_dir + '/files/sec') is not None:
+            return rt.fail('C08:secure-dir-not-read:' + label, 'trash-empty left the entry of the valid %s in place' % uid_dir)
+        if c == 'put-on-link-volume':
+            want = L + '/.Trash-1000/files/y'
+            if scen.sub(after, want) != scen.sub(before, L + '/d/y') or r['exit'] != 0:
+                return rt.fail('C08:put-wrong-dir:' + label, 'expected %s, payload at %r, exit %r, stderr %r' % (
+                    want, scen.find_equal(after, scen.sub(before, L + '/d/y')), r['exit'], r['err'][-300:]))
+        return rt.ok()
+
+
+def w_twovol(order: int, cmd: int, link: int) -> str:
+    """
+    pre: 0 <= order < 2 and 0 <= cmd < 7 and 0 <= link < 2
+    post: _ == ''
+    """
+    return _twovol(rt.sel(order, 2), rt.sel(cmd, 7), rt.sel(link, 2))
+
+
 class AdversaryHook(object):
     """another actor makes $topdir/.Trash insecure just before the k-th system call of the run"""
 
@@ -318,6 +382,10 @@ def obligations(tier):
         CH('W_state_x_alt_x_cmd', MOD, 'w_main', timeout=600, engine='W', regime='selector',
            encodes=K.PUT_FUNCS + K.LIST_FUNCS + K.RESTORE_FUNCS + K.EMPTY_FUNCS + K.RM_FUNCS, stubs=K.STUBS,
            bounds='9 .Trash states (incl. setgid/setuid without sticky) x 3 .Trash-uid states x 11 command/argument combinations (all five commands) x volume root plain / sticky'),
+        CH('W_two_volumes_link_to_valid_dir', MOD, 'w_twovol', timeout=300, engine='W', regime='selector',
+           encodes=K.PUT_FUNCS + K.LIST_FUNCS + K.RESTORE_FUNCS + K.EMPTY_FUNCS + K.RM_FUNCS, stubs=K.STUBS,
+           bounds='two volumes in one run, one with a valid sticky .Trash, the other with .Trash a symbolic link (absolute | relative) resolving to it; '
+                  'either scanning order x 7 command/argument combinations'),
         CH('W_put_rechecks_per_argument', MOD, 'w_midrun', timeout=900, partitions=[(a, i) for a in range(2) for i in (False, True)], engine='W', regime='selector', encodes=K.PUT_FUNCS, stubs=K.STUBS,
            bounds='trash-put a b c (with/without -i); .Trash turns insecure (sticky bit dropped | replaced by a symlink) before system call k, k in 0..199 '
                   '(runs are shorter: checked); an argument whose processing starts after that instant must not land in .Trash/$uid'),
